@@ -7,6 +7,7 @@ import (
 	"encoding/json"
 	"flag"
 	"fmt"
+	"regexp"
 	"sort"
 	"strings"
 
@@ -114,6 +115,20 @@ func observeContext(s flows.Session) map[string]string {
 		txt, _, _ := ev.Template(env, ctx, tpl, nil)
 		out["tpl:"+tpl] = txt
 	}
+	// and the way the engine itself evaluates while it runs: through the run, whatever environment and context that uses
+	var cur flows.Run
+	for _, r := range s.Runs() {
+		if cur == nil || r.ModifiedOn().After(cur.ModifiedOn()) {
+			cur = r
+		}
+	}
+	if cur != nil {
+		walkContext(env, types.NewXObject(cur.RootContext(env)), "asrun", 0, out)
+		for _, tpl := range urnTemplates {
+			txt, _ := cur.EvaluateTemplate(tpl, func(flows.Event) {})
+			out["run:"+tpl] = txt
+		}
+	}
 	return out
 }
 
@@ -133,35 +148,51 @@ func c19Redact(args []string) error {
 	lw.keepAll = true
 	n := 0
 	var errs []string
-	urnResult := `@contact | @contact.urn | @urns.tel | @input.urn | @(format_urn(urns.twitterid)) | @parent.contact.urn | @child.contact.urn`
+	// saved by every node while the engine runs (one result per template: a template that errors saves nothing)
+	urnResults := []string{"@contact", "@contact.urn", "@urns.tel", "@input.urn", "@(format_urn(urns.twitterid))", "@parent.contact.urn", "@child.contact.urn", "@(json(contact.urns))"}
 	if *in != "" {
 		err = forEachLine(*in, *shard, *nshards, func(i int, data []byte) error {
 			b := &Behaviour{}
 			if err := json.Unmarshal(data, b); err != nil {
 				return err
 			}
-			for _, policy := range []string{"urns", "none"} {
+			// trigger policy / policy carried by every resume ("" = resumes carry no environment): the policy may change
+			// under a session that stays in memory
+			for _, pp := range [][2]string{{"urns", ""}, {"none", ""}, {"none", "urns"}, {"urns", "none"}} {
+				policy := pp[0]
 				for _, noname := range []bool{false, true} {
 					if noname && i%3 != 0 {
 						continue
 					}
-					src := fmt.Sprintf("%s#%d/%s/noname=%v", *in, i, policy, noname)
+					src := fmt.Sprintf("%s#%d/%s-%s/noname=%v", *in, i, policy, pp[1], noname)
 					var obs [2][]map[string]string
 					var ids [2][]string
+					var eff [2][]string
 					for tw := 0; tw < 2; tw++ {
 						curTwin = tw
-						opts := &MatOpts{ResultNames: true, Policy: policy, NoName: noname, Extra: func(f, n int, d NodeDef, node M) {
+						opts := &MatOpts{ResultNames: true, Policy: policy, ResumePolicy: pp[1], NoName: noname, Extra: func(f, n int, d NodeDef, node M) {
 							acts := node["actions"].([]M)
-							node["actions"] = append([]M{{"uuid": actionUUID(f, n, 8), "type": "set_run_result", "name": fmt.Sprintf("urn%d", n), "value": urnResult}}, acts...)
+							var pre []M
+							for ti, tpl := range urnResults {
+								pre = append(pre, M{"uuid": actionUUID(f, n, 10+ti), "type": "set_run_result", "name": fmt.Sprintf("urn%d_%d", n, ti), "value": tpl})
+							}
+							node["actions"] = append(pre, acts...)
 						}}
 						bb := *b
 						rerr := runBehaviour(&bb, opts, src, func(k int, c Call, line *TLine, s flows.Session, sp flows.Sprint) {
 							if s == nil || line.Panic != "" {
 								obs[tw] = append(obs[tw], map[string]string{"<panic>": line.Panic})
 								ids[tw] = append(ids[tw], "")
+								eff[tw] = append(eff[tw], policy)
 								return
 							}
 							obs[tw] = append(obs[tw], observeContext(s))
+							// the policy in force is the one the session reports through its public environment
+							if s.Environment().RedactionPolicy() == envs.RedactionPolicyURNs {
+								eff[tw] = append(eff[tw], "urns")
+							} else {
+								eff[tw] = append(eff[tw], "none")
+							}
 							id := ""
 							if s.Contact() != nil {
 								id = fmt.Sprint(s.Contact().ID())
@@ -176,7 +207,7 @@ func c19Redact(args []string) error {
 					}
 					for k := 0; k < len(obs[0]) && k < len(obs[1]); k++ {
 						a, bm := obs[0][k], obs[1][k]
-						line := &C19Line{Src: src, Kind: "walk", K: k, Policy: policy, NPaths: len(a), HasURNs: true, NoName: noname, DiffPaths: []string{}, ContactID: ids[0][k], Desc: string(data)}
+						line := &C19Line{Src: src, Kind: "walk", K: k, Policy: eff[0][k], NPaths: len(a), HasURNs: true, NoName: noname, DiffPaths: []string{}, ContactID: ids[0][k], Desc: string(data)}
 						keys := map[string]bool{}
 						for p := range a {
 							keys[p] = true
@@ -190,6 +221,12 @@ func c19Redact(args []string) error {
 						}
 						sort.Strings(ps)
 						for _, p := range ps {
+							// when the policy changed under the session, what was stored before the change (results of this
+							// run, of the parent, of the child, legacy extra ...) legitimately holds what was visible then:
+							// only what is derived from the contact, the URNs and the input NOW is compared
+							if pp[1] != "" && !livePath(p) {
+								continue
+							}
 							if a[p] != bm[p] {
 								line.NDiff++
 								if len(line.DiffPaths) < 4 {
@@ -243,4 +280,15 @@ func c19Redact(args []string) error {
 	lw.w.Flush()
 	fmt.Println(string(mustJSON(M{"lines": lw.n, "evaluations": n, "errors": errs})))
 	return nil
+}
+
+var liveRoots = regexp.MustCompile(`^(asrun)?\.((parent|child)\.)?(contact|urns|input)\b`)
+
+var storedTemplates = regexp.MustCompile(`json\((parent|child|run|results|trigger)\)|@trigger|@resume|legacy_extra|webhook`)
+
+func livePath(p string) bool {
+	if strings.HasPrefix(p, "run:") || strings.HasPrefix(p, "tpl:") {
+		return !storedTemplates.MatchString(p) // these render stored results / the trigger's or resume's own copy of the data
+	}
+	return liveRoots.MatchString(p)
 }
